@@ -183,7 +183,7 @@ def kaykobad_pair_s(draw):
     """Producer P (inputs u.., outputs y1..yk, one guarantee row per output with dominant same-sign diagonal and small couplings
     onto the other outputs) and consumer Q (inputs y1..yk, output z, one guarantee term over all y's and z): composing them, or
     dividing a contract that mentions all y's by P, needs a multi-variable (Kaykobad-type) elimination."""
-    k = draw(st.integers(2, 4))
+    k = draw(st.sampled_from([2, 3, 3, 4]))
     ys = ["y1", "y2", "y3", "y4"][:k]
     us = ["u1", "u2"][:draw(st.integers(1, 2))]
     names = ys + us + ["z"]
@@ -225,7 +225,7 @@ def kaykobad_pair_s(draw):
 @st.composite
 def contract_pair_s(draw, kinds=WIRINGS_W, dyadic=True, feedback_assumptions=False):
     """Two contracts over a wiring, sharing a witness so that everything is jointly satisfiable."""
-    if kinds is WIRINGS_W and draw(st.integers(0, 11)) == 0:
+    if kinds is WIRINGS_W and draw(st.integers(0, 6)) == 0:
         pr = draw(kaykobad_pair_s())
         if draw(st.booleans()):
             pr["c1"], pr["c2"] = pr["c2"], pr["c1"]
